@@ -135,6 +135,8 @@ class Interp:
                         p.fset = fn
                 elif "staticmethod" in decos:
                     c.attrs[st.name] = ("static", fn)
+                elif "classmethod" in decos:
+                    c.attrs[st.name] = ("classmethod", fn)
                 else:
                     c.attrs[st.name] = fn
                 frame.vars[st.name] = fn       # later class-body statements may refer to it (M = property(_getM))
@@ -184,6 +186,8 @@ class Interp:
                         return BoundMethod(cv, obj)
                     if isinstance(cv, tuple) and cv[0] == "static":
                         return cv[1]
+                    if isinstance(cv, tuple) and cv[0] == "classmethod":
+                        return BoundMethod(cv[1], cls)
                     return cv
                 if obj.open_attrs is not None and name in obj.open_attrs:
                     # data the loaders put in the instance dict: found before __getattr__ is consulted
@@ -204,6 +208,8 @@ class Interp:
                 raise SymRaise("AttributeError", f"{obj!r}.{name}")
             if isinstance(v, tuple) and v[0] == "static":
                 return v[1]
+            if isinstance(v, tuple) and v[0] == "classmethod":
+                return BoundMethod(v[1], obj)
             return v
         if isinstance(obj, ModuleVal):
             return self.module_attr(obj, name)
@@ -265,7 +271,7 @@ class Interp:
         if r[0] == "func":
             q = r[1]
             f = self.src.func(q)
-            v = Closure(f.node, f.module, q)
+            v = self.decorate(Closure(f.node, f.module, q), f.node, Frame(self, f.module, f.module))
         elif r[0] == "class":
             v = self.get_class(r[1])
         elif r[0] == "module":
@@ -321,6 +327,25 @@ class Interp:
                 return merge(a.cond, r1, r2)
         if self.depth >= MAX_DEPTH:
             raise AnalysisError(f"inlining depth exceeded at {fn.qual}")
+        memo = getattr(fn, "memo", None)
+        if memo is not None:
+            # functools.lru_cache / cache: one result object per distinct argument tuple
+            def hk(v):
+                if isinstance(v, (list, dict, set)):
+                    raise SymRaise("TypeError", "unhashable argument of a cached function")
+                if isinstance(v, tuple):
+                    return tuple(hk(x) for x in v)
+                return v if isinstance(v, (str, int, float, bool, type(None), sp.Basic)) else id(v)
+            key = (tuple(hk(a) for a in args), tuple(sorted((k, hk(v)) for k, v in kwargs.items())))
+            if key in memo:
+                return memo[key]
+            fn.memo = None
+            try:
+                r = self.call_closure(fn, args, kwargs)
+            finally:
+                fn.memo = memo
+            memo[key] = r
+            return r
         node = fn.node
         frame = Frame(self, fn.module, fn.qual, parent=fn.frame, cls=fn.cls)
         self.bind_params(node.args, args, kwargs, frame, fn)
@@ -339,6 +364,57 @@ class Interp:
             return self.finish(frame, live)
         finally:
             self.depth -= 1
+
+    IDENTITY_DECORATORS = {"require_keywords", "util.require_keywords"}
+
+    def decorate(self, fn, node, frame):
+        """Apply the decorators of a function definition (module level or nested)."""
+        if not isinstance(node, ast.FunctionDef):
+            return fn
+        for d in reversed(node.decorator_list):
+            text = ast.unparse(d)
+            base = text.split("(")[0]
+            if base in self.IDENTITY_DECORATORS or base.endswith(".require_keywords"):
+                continue            # forces keyword arguments; the body is unchanged
+            if base in ("property", "staticmethod", "classmethod") or base.endswith(".setter"):
+                continue            # handled where the class body is interpreted
+            if base.split(".")[-1] in ("lru_cache", "cache", "cached_property"):
+                fn.memo = {}
+                continue
+            if base.split(".")[-1] == "wraps":
+                continue
+            raise AnalysisError(f"decorator @{text} on {fn.qual} is not modelled")
+        return fn
+
+    def exec_while(self, st, frame, pc):
+        n = 0
+        while True:
+            c = self.truth(self.eval(st.test, frame))
+            if c is sp.false:
+                break
+            if c is not sp.true:
+                raise AnalysisError(f"while loop with a symbolic condition in {frame.qual}")
+            n += 1
+            if n > 20000:
+                raise AnalysisError(f"while loop does not terminate within the budget in {frame.qual}")
+            n0 = len(frame.exits)
+            live = self.exec_block(st.body, frame, pc)
+            new = frame.exits[n0:]
+            lx = [x for x in new if x[0] in ("continue", "break")]
+            if lx:
+                if any(x[1] is not pc and x[1] != pc for x in lx):
+                    raise AnalysisError(f"conditional break/continue in a while loop under a symbolic condition ({frame.qual})")
+                del frame.exits[n0:]
+                frame.exits.extend(x for x in new if x[0] not in ("continue", "break"))
+                self.restore(lx[0][2])
+                if lx[0][0] == "break":
+                    return True
+                continue
+            if not live:
+                return False
+        if st.orelse:
+            return self.exec_block(st.orelse, frame, pc)
+        return True
 
     def finish(self, frame, live):
         rets = [(c, v) for k, c, v in frame.exits if k == "return"]
@@ -523,8 +599,12 @@ class Interp:
         if isinstance(st, ast.Pass):
             return True
         if isinstance(st, (ast.FunctionDef,)):
-            frame.vars[st.name] = Closure(st, frame.module, f"{frame.qual}.{st.name}", frame)
+            frame.vars[st.name] = self.decorate(Closure(st, frame.module, f"{frame.qual}.{st.name}", frame), st, frame)
             return True
+        if isinstance(st, ast.While):
+            return self.exec_while(st, frame, pc)
+        if isinstance(st, ast.Nonlocal):
+            raise AnalysisError(f"nonlocal is not modelled ({frame.qual})")
         if isinstance(st, ast.Assert):
             c = self.truth(self.eval(st.test, frame))
             self.asserts.append((sp.Implies(pc, c) if pc is not sp.true else c, ast.unparse(st.test), frame.qual))
@@ -883,7 +963,27 @@ class Interp:
         return Closure(n, f.module, f"{f.qual}.<lambda@{n.lineno}>", f)
 
     def e_JoinedStr(self, n, f):
-        return "<fstring>"
+        out = ""
+        for part in n.values:
+            if isinstance(part, ast.Constant):
+                out += str(part.value)
+                continue
+            v = self.eval(part.value, f)
+            spec = self.eval(part.format_spec, f) if part.format_spec is not None else ""
+            conv = {115: "s", 114: "r", 97: "a"}.get(part.conversion)
+            try:
+                pv = self.lib._pyfmt(v)
+                if conv == "r":
+                    pv = repr(pv)
+                elif conv == "s":
+                    pv = str(pv)
+                out += format(pv, spec if isinstance(spec, str) else "")
+            except Exception:
+                out += self.call(self.builtins["str"], [v], {}) if isinstance(self.call(self.builtins["str"], [v], {}), str) else "<?>"
+        return out
+
+    def e_FormattedValue(self, n, f):
+        return self.eval(n.value, f)
 
     def e_Subscript(self, n, f):
         base = self.eval(n.value, f)
